@@ -409,6 +409,103 @@ def gen_HabConsts():
     unpacks("srkEccUnpack", t[SEC], "SrkItemEcc")
     out.append("")
 
+    # ---- Write Data / Check Data / Initialize commands, DCD segment (Model/HabDcd.lean is written against these)
+    table("writeOps", enum_members(t[CMD], "EnumWriteOps", E[CMD]), CMD + "::EnumWriteOps")
+    table("checkOps", enum_members(t[CMD], "EnumCheckOps", E[CMD]), CMD + "::EnumCheckOps")
+    packs("wrtDatPack", t[CMD], "CmdWriteData")
+    unpacks("wrtDatUnpack", t[CMD], "CmdWriteData")
+    packs("chkDatPack", t[CMD], "CmdCheckData")
+    unpacks("chkDatUnpack", t[CMD], "CmdCheckData")
+    packs("initPack", t[CMD], "CmdInitialize")
+    unpacks("initUnpack", t[CMD], "CmdInitialize")
+    cmd_tag_of = dict(enum_members(t[HDR], "CmdTag", E[HDR]))
+
+    def int_consts(node, rel, cls):
+        """integer constants of an expression, by value, in source order (maximal constant sub-expressions)"""
+        if node is None:
+            return []
+        try:
+            v = E[rel].eval(node, cls=cls)
+            if isinstance(v, int) and not isinstance(v, bool):
+                return [v]
+        except NotConst:
+            pass
+        res = []
+        for ch in ast.iter_child_nodes(node):
+            if isinstance(ch, ast.expr):
+                res += int_consts(ch, rel, cls)
+        return res
+
+    def width_sets(cls):
+        """every `x not in (…)` / `x in (…)` membership test of `cls.__init__` whose right side is a tuple of integers"""
+        res = []
+        f = _fun(_cls(t[CMD], cls), "__init__")
+        for n in sorted((x for x in ast.walk(f) if isinstance(x, ast.Compare)), key=lambda x: (x.lineno, x.col_offset)) if f else []:
+            if len(n.ops) == 1 and isinstance(n.ops[0], (ast.In, ast.NotIn)):
+                try:
+                    v = E[CMD].eval(n.comparators[0], cls=cls)
+                except NotConst:
+                    continue
+                if isinstance(v, (tuple, list)) and v and all(isinstance(x, int) and not isinstance(x, bool) for x in v):
+                    res.append(sorted(v))
+        return res
+
+    def param_consts(cls):
+        """constants of the parameter-byte expression handed to `super().__init__(CmdTag.X, <expr>)`"""
+        f = _fun(_cls(t[CMD], cls), "__init__")
+        for n in ast.walk(f) if f else []:
+            if isinstance(n, ast.Call) and isinstance(n.func, ast.Attribute) and n.func.attr == "__init__" and len(n.args) >= 2:
+                return int_consts(n.args[1], CMD, cls)
+        return []
+
+    for nm, cls in (("wrtDat", "CmdWriteData"), ("chkDat", "CmdCheckData")):
+        ws = width_sets(cls)
+        out.append(f"/-- byte widths `{cls}.__init__` accepts -/")
+        out.append(f"def {nm}Widths : List Nat := {lnats(ws[0] if ws else [])}")
+        meta[nm + "Widths"] = ws[0] if ws else []
+        pc = param_consts(cls)
+        out.append(f"/-- constants of the parameter byte `((ops.tag & a) << b) | (numbytes & c)` of `{cls}.__init__`, source order -/")
+        out.append(f"def {nm}ParamConsts : List Nat := {lnats(pc)}")
+        meta[nm + "ParamConsts"] = pc
+    # CmdInitialize.append: `value < 0 or value >= LIMIT`
+    lim = []
+    ia = _fun(_cls(t[CMD], "CmdInitialize"), "append")
+    for n in sorted((x for x in ast.walk(ia) if isinstance(x, ast.Compare)), key=lambda x: (x.lineno, x.col_offset)) if ia else []:
+        if len(n.ops) == 1 and isinstance(n.ops[0], (ast.Gt, ast.GtE)):
+            v = ev_c = None
+            try:
+                v = E[CMD].eval(n.comparators[0], cls="CmdInitialize")
+            except NotConst:
+                pass
+            if isinstance(v, int) and not isinstance(v, bool):
+                lim.append(v + 1 if isinstance(n.ops[0], ast.Gt) else v)
+    out.append("/-- first value `CmdInitialize.append` refuses -/")
+    out.append(f"def initLimit : Nat := {lim[0] if lim else 0}")
+    meta["initLimit"] = lim[0] if lim else 0
+    # SegDCD._COMMANDS (tags, in source order) and the default parameter byte of SegDCD.__init__
+    dc = class_attr(t[SEG], "SegDCD", "_COMMANDS")
+    dcd_tags = []
+    if isinstance(dc, (ast.Tuple, ast.List)):
+        for e in dc.elts:
+            d = _dotted(e) or ""
+            dcd_tags.append(cmd_tag_of.get(d.split(".")[-1], 0))
+    out.append("/-- `SegDCD._COMMANDS` as tags -/")
+    out.append(f"def dcdCommands : List Nat := {lnats(dcd_tags)}")
+    meta["dcdCommands"] = dcd_tags
+    # parse_command dispatch: tags of `_CMD_TO_CLASS`, sorted (the code only indexes it)
+    disp = []
+    for n in ast.walk(t[CMD]):
+        if isinstance(n, (ast.Assign, ast.AnnAssign)):
+            tgt = n.targets[0] if isinstance(n, ast.Assign) else n.target
+            if isinstance(tgt, ast.Name) and tgt.id == "_CMD_TO_CLASS" and isinstance(n.value, ast.Dict):
+                for k, v in zip(n.value.keys, n.value.values):
+                    disp.append((cmd_tag_of.get((_dotted(k) or "").split(".")[-1], 0), _dotted(v) or "?"))
+    disp.sort()
+    out.append("/-- `_CMD_TO_CLASS`: (tag, class) rows `parse_command` dispatches on -/")
+    out.append("def cmdDispatch : List (Nat × String) := [" + ", ".join(f"({k}, {lstr(v)})" for k, v in disp) + "]")
+    meta["cmdDispatch"] = [[k, v] for k, v in disp]
+    out.append("")
+
     # BDT parse: cls(*unpack_from(cls.FORMAT, data)) - argument order of SegBDT.__init__
     bdt_init = _fun(_cls(t[SEG], "SegBDT"), "__init__")
     bdt_args = [a.arg for a in bdt_init.args.args if a.arg != "self"] if bdt_init else []
